@@ -311,31 +311,37 @@ macro_rules! builder_shape_nc {
     };
 }
 // @harness props=C01,C11 tier=quick cost=15 flags=nomem
+// @replay builder_ops
 // @exec ListMatcherBuilder::{new,new_and_condition,new_or_condition,new_list_condition,check_new_and_condition}, OrMatcherBuilder::*, AndMatcherBuilder::new_and_condition
 // @sym the next operator (-a, -o, ',') after the fixed prefix ""
 // @bounds fixed prefix shape; one symbolic operation
 builder_shape!(c11_builder_shape0, c11_builder_shape0_canary, 0, 5);
 // @harness props=C01,C11 tier=quick cost=15 flags=nomem
+// @replay builder_ops
 // @exec as c11_builder_shape0
 // @sym the next operator after the prefix "P"
 // @bounds fixed prefix shape
 builder_shape_nc!(c11_builder_shape1, 1, 5);
 // @harness props=C01,C11 tier=quick cost=15 flags=nomem
+// @replay builder_ops
 // @exec as c11_builder_shape0
 // @sym the next operator after the prefix "P -o"
 // @bounds fixed prefix shape
 builder_shape!(c11_builder_shape2, c11_builder_shape2_canary, 2, 5);
 // @harness props=C01,C11 tier=thorough cost=300 flags=nomem
+// @replay builder_ops
 // @exec as c11_builder_shape0
 // @sym the next operator after the prefix "P -o P"
 // @bounds fixed prefix shape
 builder_shape_nc!(c11_builder_shape3, 3, 5);
 // @harness props=C01,C11 tier=quick cost=15 flags=nomem
+// @replay builder_ops
 // @exec as c11_builder_shape0
 // @sym the next operator after the prefix "P ,"
 // @bounds fixed prefix shape
 builder_shape!(c11_builder_shape4, c11_builder_shape4_canary, 4, 5);
 // @harness props=C01,C11 tier=quick cost=15 flags=nomem
+// @replay builder_ops
 // @exec as c11_builder_shape0
 // @sym the next operator after the prefix "P , P"
 // @bounds fixed prefix shape
